@@ -95,6 +95,7 @@ type world struct {
 }
 
 func newWorld(conns []string) *world {
+	WaitGoroutinesAtMost(globalBase, 3*time.Second) // the previous history's node is gone
 	ctx, cancel := context.WithCancel(context.Background())
 	n := netceptor.NewWithConsts(ctx, "self", 16384, time.Hour, time.Hour, time.Hour, 30, time.Hour)
 	n.VerifSetEpoch(selfEpoch)
@@ -103,8 +104,7 @@ func newWorld(conns []string) *world {
 		ch, _ := n.VerifAddConn(c, 1, 8192)
 		w.conns[c] = ch
 	}
-	time.Sleep(2 * time.Millisecond)
-	w.base = runtime.NumGoroutine()
+	w.base = StableGoroutines(time.Second)
 	return w
 }
 
@@ -512,8 +512,11 @@ func runHistory(c *Ctx, im *Impl, r *Rng, hlen int, script []scripted) (conns []
 	return
 }
 
+var globalBase int
+
 func run(c *Ctx) {
 	QuietLogs()
+	globalBase = runtime.NumGoroutine()
 	im := NewImpl("C06", c.Seed, c.Tier)
 	im.Rule = "histories of routing updates (fresh, equal, older sequence, lower/higher epoch, replayed IDs, self/empty origin, duplicate notices, expiry of seen IDs) from 1-9 origins over 0-4 fake connections delivered to one real node step by step; a history is non-trivial when it contains at least one stale/equal/replayed update and at least one accepted one; distinct by the full history"
 	cf := &CaseFile{Dir: c.Out, Prop: "C06", Imports: []string{"Model.Flood"}, CaseType: "flood_case", CheckFn: "flood_check", PerShard: 60}
